@@ -13,7 +13,7 @@ CONSTANTS
   BitWidth = 8
   AllowEmpty = TRUE
   AlwaysRow = TRUE
-  Plans = {<<2, 2>>}
+  Plans = {202}
   SampleDB = 0
   SampleMS = 0
   SampleSeries = 3
